@@ -32,6 +32,10 @@ CLAIMED = {
             "full sweep + edge-list rebuild is executed, and for ALL edge matrices in the group x->s*x+t each query equals the product along the reference path (or raises when disconnected). "
             "Caches (resolved transforms, shortest paths, forest hash) are exercised by the sweep placement, which is what staleness depends on.",
             TRUSTED + "edge matrices restricted to uniform-scale+translation (non-commutative, closed under product/inverse) with prime-separated scales so that the 1e-8 shortcuts and fix_rigid's SVD band are unreachable; at most 4 frames and 2 mutations; kwargs other than matrix= are covered by C19."),
+    "C02": ("model_checking", "DESIGN.md#c02", "bounded model checking with z3 of the dirty-flag transition system extracted (measured) from the real TrackedArray and numpy dispatch; all stale routes enumerated by blocking clauses until unsat; every trace replayed on the real class",
+            "The program of numpy operations is the solver variable: for every program of 3 (quick: 3-4, thorough: up to 6) steps over hash reads, 11 alias-creating operations and 36 write routes on up to three aliasing objects, z3 either proves no stale memoised hash is reachable or returns the route, "
+            "which is executed on a real TrackedArray and compared with hash_fast(tobytes()). Routes that are genuine today are listed in known_findings.json by route class; any other route (a dropped dirty flag, an un-overridden method, a weakened __array_finalize__) is a violation.",
+            "Trusted base: z3; the measured environment table (effect of each numpy operation on bytes / dirty flags / aliasing is data independent) - validated because every reported trace is replayed and spurious ones refine the table; full-coverage views only (partial views a[1:3] need index tracking), one write per program, dtypes float64/int64/uint8 of shape (4,3)."),
 }
 
 NOT_APPLICABLE = {
